@@ -4,5 +4,5 @@
 // them that is neither under contract nor pinned by name still makes this unit undecided, which sends the check to the
 // property's bounded sweep of the real code
 //@pinfile file=lrlex/src/lib/lexer.rs sha=448f544bab49b763
-//@pinfile file=lrlex/src/lib/parser.rs sha=de9518e2e28f9549
+//@pinfile file=lrlex/src/lib/parser.rs sha=ee184a9fe8ea3991
 //@use prelude/tail.rs
